@@ -110,11 +110,13 @@ func init() {
 		j = mk("c18.ensureCapacity", rootPkg, "ZZ_C18_EnsureCapacity", map[string]int{"maxM": maxM}, func(b *Bounds) { b.ConcretiseMax = 300; b.Unwind = 12 })
 		j.Labels = []string{"c18.ensure.len", "c18.ensure.noshrink", "c18.ensure.zeroed"}
 		js = append(js, j)
-		hs := 4
+		// histories of increments and growths; hashes are the engine's concrete seed-dependent mixing function here (the
+		// symbolic-hash variant of this harness did not finish within 30 minutes at 4 steps and is not registered)
+		hs := 5
 		if tier == "thorough" {
-			hs = 5
+			hs = 7
 		}
-		hj := mk(sprintf("c18.history.steps%d", hs), rootPkg, "ZZ_C18_History", map[string]int{"steps": hs}, func(b *Bounds) { b.Unwind = 12 })
+		hj := mk(sprintf("c18.history.concrete_hash.steps%d", hs), rootPkg, "ZZ_C18_History", map[string]int{"steps": hs, "symhash": 0}, func(b *Bounds) { b.Unwind = 12 })
 		hj.Labels = []string{"c18h.estimate_at_least_times_recorded_since_growth"}
 		js = append(js, hj)
 		for _, j := range js {
